@@ -533,3 +533,25 @@ fn del_to_delay_ms(del: u8) -> u32 {
         _ => region::constants::RECEIVE_DELAY1,
     }
 }
+
+#[cfg(feature = "verif-hooks")]
+pub(crate) fn verif_next_fcnt_down(last: Option<u32>, wire: u16) -> Option<u32> {
+    session::verif_next_fcnt_down(last, wire)
+}
+
+#[cfg(feature = "verif-hooks")]
+impl Mac {
+    pub(crate) fn verif_snapshot(&self) -> crate::verif::Snapshot {
+        crate::verif::Snapshot {
+            joined: self.is_joined(),
+            data_rate: self.configuration.data_rate as u8,
+            tx_power: self.configuration.tx_power,
+            rx1_delay: self.configuration.rx1_delay,
+            rx1_dr_offset: self.configuration.rx1_dr_offset,
+            rx2_data_rate: self.configuration.rx2_data_rate.map(|d| d as u8),
+            rx2_frequency: self.configuration.rx2_frequency,
+            adr_enabled: self.configuration.adr_enabled,
+            region: self.region.verif_snapshot(),
+        }
+    }
+}
